@@ -261,9 +261,10 @@ type choicePoint struct {
 }
 
 type chooser struct {
-	over map[int]int
-	n    int
-	log  []choicePoint
+	over   map[int]int
+	prefer map[string]int // canonical option per choice name when it is not 0
+	n      int
+	log    []choicePoint
 }
 
 // pick returns the option for the next choice point: the override if one is set, else the default 0.
@@ -274,10 +275,15 @@ func (c *chooser) pick(name string, n int) int {
 	if n <= 1 {
 		return 0
 	}
-	if v, ok := c.over[i]; ok && v < n {
-		return v
+	def := 0
+	if v, ok := c.prefer[name]; ok && v < n {
+		def = v
 	}
-	return 0
+	if v, ok := c.over[i]; ok && v < n {
+		// overrides count from the canonical option: 1 = "next after canonical", wrapping around
+		return (def + v) % n
+	}
+	return def
 }
 
 type refDef struct{ label, dest, title string }
@@ -292,7 +298,11 @@ type mdPrinter struct {
 	defs     []refDef
 	depth    int    // container depth (tabs are only used at depth 0, where columns are absolute)
 	lastMark string // marker character / delimiter of the list printed last at the current nesting level
+	col      int    // absolute column at which the content of the current container starts; -1 = unknown
 }
+
+// tabOK reports whether a tab written at the start of the current container's content advances exactly four columns.
+func (p *mdPrinter) tabOK() bool { return p.col >= 0 && p.col%4 == 0 }
 
 var namedEnt = map[string]string{"*": "ast", "_": "lowbar", "`": "grave", "<": "lt", ">": "gt", "&": "amp", "\"": "quot", "\\": "bsol", "[": "lsqb", "]": "rsqb", "#": "num", "!": "excl", "(": "lpar", ")": "rpar", "-": "hyphen", "+": "plus", "=": "equals", "~": "tilde"}
 
@@ -610,7 +620,7 @@ func (p *mdPrinter) block(b Blk, cx blkCtx) []pline {
 			var out []pline
 			for _, l := range lines {
 				pre := "    "
-				if c == 7 && p.depth == 0 {
+				if c == 7 && p.tabOK() {
 					pre = "\t"
 				}
 				if l == "" {
@@ -650,11 +660,18 @@ func (p *mdPrinter) block(b Blk, cx blkCtx) []pline {
 		}
 		return out
 	case bQuote:
-		p.depth++
-		kids := p.blocks(b.Kids, false, false, "")
-		p.depth--
 		ind := p.leadIndent(indentOK)
 		tight := p.ch.pick("quote-marker-space", 2) == 1
+		p.depth++
+		saveCol := p.col
+		if p.col >= 0 && !tight {
+			p.col += len(ind) + 2
+		} else {
+			p.col = -1
+		}
+		kids := p.blocks(b.Kids, false, false, "")
+		p.col = saveCol
+		p.depth--
 		var out []pline
 		for i, l := range kids {
 			if l.cont && i > 0 && p.ch.pick("lazy-continuation", 2) == 1 {
@@ -701,22 +718,24 @@ func (p *mdPrinter) block(b Blk, cx blkCtx) []pline {
 			}
 			nsp := 1 + p.ch.pick("marker-spaces", 4)
 			w := lind + len(m) + nsp
+			// content on the line after the marker; an empty list item cannot interrupt a paragraph
+			nextLine := it[0].K != bCode && !(ii == 0 && cx.noBlankAfterPara) && p.ch.pick("item-content-on-next-line", 2) == 1
+			if nextLine {
+				w = lind + len(m) + 1
+			}
 			p.depth++
+			saveCol := p.col
+			if p.col >= 0 {
+				p.col += w
+			}
 			kids := p.blocks(it, b.Tight, true, map[bool]string{true: "", false: mark}[b.Ordered])
+			p.col = saveCol
 			p.depth--
 			gap := spaces(nsp)
-			if p.depth == 0 && nsp > 1 {
-				col := lind + len(m)
+			if p.col >= 0 && nsp > 1 {
+				col := p.col + lind + len(m)
 				if 4-col%4 == nsp && p.ch.pick("tab-after-marker", 2) == 1 {
 					gap = "\t"
-				}
-			}
-			nextLine := false
-			// an empty list item cannot interrupt a paragraph
-			if len(kids) > 0 && kids[0].s != "" && it[0].K != bCode && !(ii == 0 && cx.noBlankAfterPara) {
-				nextLine = p.ch.pick("item-content-on-next-line", 2) == 1
-				if nextLine {
-					w = lind + len(m) + 1
 				}
 			}
 			if ii > 0 && !b.Tight {
@@ -735,7 +754,7 @@ func (p *mdPrinter) block(b Blk, cx blkCtx) []pline {
 					out = append(out, pline{l.s, true})
 				default:
 					pre := spaces(w)
-					if p.depth == 0 && w >= 4 && p.ch.pick("tab-indent", 2) == 1 {
+					if p.tabOK() && w >= 4 && p.ch.pick("tab-indent", 2) == 1 {
 						pre = "\t" + spaces(w-4)
 					}
 					out = append(out, pline{pre + l.s, l.cont})
@@ -827,7 +846,13 @@ func markersBefore(out []pline, i int) string { return "" }
 // PrintMarkdown writes the model document as Markdown under the given choice overrides; it returns the text and the log of
 // choice points met (for enumeration of deviations).
 func PrintMarkdown(doc []Blk, over map[int]int) (string, []choicePoint) {
-	p := &mdPrinter{ch: &chooser{over: over}}
+	return PrintMarkdownPrefer(doc, over, nil)
+}
+
+// PrintMarkdownPrefer is PrintMarkdown with another canonical spelling: prefer gives, per choice name, the option that
+// counts as the default.
+func PrintMarkdownPrefer(doc []Blk, over map[int]int, prefer map[string]int) (string, []choicePoint) {
+	p := &mdPrinter{ch: &chooser{over: over, prefer: prefer}}
 	lines := p.blocks(doc, false, false, "")
 	unclosed := false
 	var defs []refDef
